@@ -2,6 +2,7 @@
 package mon
 
 import (
+	"bytes"
 	"errors"
 	"io"
 	"net"
@@ -209,6 +210,62 @@ func Quiet() {
 		if f, err := os.OpenFile(os.DevNull, os.O_WRONLY, 0); err == nil {
 			os.Stdout = f
 		}
-		fastlog.DefaultIOWriter = io.Discard
+		fastlog.DefaultIOWriter = Log
 	})
+}
+
+// LogMon is the writer behind every fastlog line the library emits: nothing is kept, but every write is judged. A line
+// handed to Write must begin with its 6 character module tag and ':' (what Logger.Msg puts there) and must not be the
+// poison text fastlog leaves in a buffer it has already given back to its pool ("invalid buffer freed via ..."): such a
+// write means that a line was written twice or used after Write/ToString, i.e. two users now share one pooled buffer.
+type LogMon struct {
+	mu    sync.Mutex
+	Lines int64
+	bad   []string
+}
+
+// Log is the process wide monitor installed by Quiet.
+var Log = &LogMon{}
+
+func (m *LogMon) Write(p []byte) (int, error) {
+	m.mu.Lock()
+	defer m.mu.Unlock()
+	m.Lines++
+	kind := ""
+	switch {
+	case bytes.Contains(p, []byte("invalid buffer freed via")):
+		kind = "written-after-free"
+	case len(p) < 8 || p[6] != ':':
+		kind = "no-module-tag"
+	default:
+		for _, b := range p[:6] {
+			if !(b == ' ' || b == '_' || b == '-' || b >= '0' && b <= '9' || b >= 'a' && b <= 'z' || b >= 'A' && b <= 'Z') {
+				kind = "no-module-tag"
+			}
+		}
+	}
+	if kind != "" && len(m.bad) < 16 {
+		q := p
+		if len(q) > 200 {
+			q = q[:200]
+		}
+		m.bad = append(m.bad, kind+"|"+string(q))
+	}
+	return len(p), nil
+}
+
+// Take returns and clears the malformed writes seen so far ("kind|first 200 bytes").
+func (m *LogMon) Take() []string {
+	m.mu.Lock()
+	defer m.mu.Unlock()
+	out := m.bad
+	m.bad = nil
+	return out
+}
+
+// Count returns the number of lines judged so far.
+func (m *LogMon) Count() int64 {
+	m.mu.Lock()
+	defer m.mu.Unlock()
+	return m.Lines
 }
